@@ -46,6 +46,8 @@ func noReturn(c *sym.Config) {
 	c.MaxLoop = 3000
 }
 
+func allowLeak(c *sym.Config) { c.AllowLeak = false }
+
 var props = map[string]*propDef{
 	"C14": {
 		ID: "C14", Level: "model_checking", Rule: ruleDefault,
@@ -278,6 +280,17 @@ var props = map[string]*propDef{
 		Harnesses: []harnessDef{
 			{Name: "ch.VerifC10Cancel", Repeat: 200, Cfg: noReturn, Optional: []string{"completed-stream"}, Quick: map[string]int{"maxgate": 10}, Thorough: map[string]int{"maxgate": 24}},
 			{Name: "ch.VerifC10Handshake", Repeat: 200, Cfg: noReturn, Optional: []string{"client-returned"}, Quick: map[string]int{"maxgate": 8}, Thorough: map[string]int{"maxgate": 16}},
+		},
+	},
+	"C11": {
+		ID: "C11", Level: "model_checking", Rule: ruleDefault,
+		Assumptions: append([]string{
+			"chpool AND the real github.com/jackc/puddle/v2 pool (with x/sync/semaphore) are interpreted; goroutines are cooperative coroutines, so only sequential handle histories and puddle's own internal goroutines are explored - concurrent holders on real threads are outside",
+			"connections come from a scripted server (hello, then Pongs); time.Now is a concrete clock advancing 1 ms per call; tickers never fire by themselves (the health check is invoked directly)",
+		}, baseAssumptions...),
+		Harnesses: []harnessDef{
+			{Name: "chpool.VerifC11Handles", Cfg: allowLeak},
+			{Name: "chpool.VerifC11Expiry", Cfg: allowLeak},
 		},
 	},
 }
